@@ -7,6 +7,8 @@ CONSTANTS
   Parents <- McParents
   CtxOf <- McCtxOf
   Removable <- McRemovable
+  BeginKinds <- AllKinds
+  TrackH = "none"
   Tok = {0, 1}
   MaxTx = 3
   MaxOps = 2
